@@ -4,6 +4,7 @@
 //!   scverif eval <evaluator> <placeholder-enc> <input>               (one raw call; used for crash triage)
 
 use scverif::{api, choice, props, run, util};
+use scverif::run::Tier as _TierAlias;
 
 use run::{Case, Tier};
 use serde_json::Value;
@@ -136,6 +137,54 @@ fn main() {
             for ev in api::Ev::ALL {
                 for s in ["1+2*3", "(2+3)/2", "2^3!", "-2^2", "6/2(3)", "2(3)^2(4)", "min(1,2,3)", "avg()", "5!", "sqrt(16)", "abs(-3)+pow(2,10)", "1<<2+1", "6&3|1", "2²+3³", "⌊2.5⌋+⌈2.5⌉", "pi*e", "90°", "1rad", "(1+2i)*(3-i)", "w(1)", "ilog(100,10)", "@+1", "1)", "2pi"] {
                     push(ev, &api::Val::default_for(ev), s);
+                }
+            }
+            // boundary blocks of the other properties (thinned): feature-dependent code paths tend to differ exactly there
+            for (id, sub, stride) in [("C09", "binary", 5u64), ("C09", "unary", 1), ("C06", "binary", 5), ("C10", "grid", 2), ("C05", "unary", 1), ("C05", "binary", 9), ("C11", "large", 11), ("C12", "short", 13), ("C07", "binary", 7), ("C04", "enum2", 37), ("C18", "boundary", 3)] {
+                let prop = props::by_id(id).unwrap();
+                let count = prop.subs(Tier::Quick).iter().find(|s| s.name == sub).map(|s| if let run::SubKind::Enum { count } = s.kind { count } else { 0 }).unwrap_or(0);
+                let mut i = 0;
+                while i < count {
+                    if let Some(c) = prop.gen_enum(sub, i, Tier::Quick) {
+                        if id == "C18" {
+                            // Number::from is reached through eval_number: write the double as a literal where possible
+                            if let Ok(bits) = u64::from_str_radix(c.input.trim_start_matches("0x"), 16) {
+                                if let Some(e) = props::common::f64_expr(f64::from_bits(bits)) {
+                                    let e = if e.contains('.') || e.contains('/') { e } else { format!("{}.0", e) };
+                                    push(api::Ev::Num, &api::Val::NI(0), &format!("floor({})+0", e));
+                                    push(api::Ev::Num, &api::Val::NI(0), &format!("{}*1", e));
+                                }
+                            }
+                        } else {
+                            push(c.ev, &c.ph, &c.input);
+                        }
+                    }
+                    i += stride;
+                }
+            }
+            for ev in api::Ev::ALL {
+                let d = api::Val::default_for(ev);
+                // dense factorial grid, well beyond the range other properties look at
+                if scverif::vocab::has_fact(ev) && ev != api::Ev::I64 {
+                    let mut x = -180.0f64;
+                    while x <= 180.0 {
+                        push(ev, &d, &format!("({})!", if x < 0.0 { format!("-{}", -x) } else { format!("{}", x) }));
+                        x += 0.25;
+                    }
+                }
+                // zero-padded superscript runs and literals of many digits
+                for k in [1usize, 5, 17, 18, 19, 20, 21, 28, 29, 30, 40, 100, 308, 309, 310, 400] {
+                    push(ev, &d, &format!("2{}³", "⁰".repeat(k)));
+                    push(ev, &d, &format!("2^{}3", "0".repeat(k)));
+                    push(ev, &d, &format!("{}42+1", "0".repeat(k)));
+                }
+                for s in ["2^63", "2^64", "9223372036854775807+1", "floor(9223372036854775808.0)", "9007199254740993*1", "(-9223372036854775807-1)/(-1)", "3037000500*3037000500", "2097152^3", "pow(2,0.5)", "10^23", "10²³", "1°", "1rad", "w(1)", "ilog(100,1.2)"] {
+                    push(ev, &d, s);
+                }
+                for (lev, s) in props::long::all(false).iter() {
+                    if *lev == ev && s.len() % 5 == 0 {
+                        push(ev, &d, s);
+                    }
                 }
             }
             let cfg = proptest::test_runner::Config { failure_persistence: None, ..Default::default() };
